@@ -7,6 +7,7 @@ are computed from the *program* the generator encoded (reference encoders `enc_*
 from __future__ import annotations
 
 import hashlib
+import io
 import json
 import logging
 import struct
@@ -48,8 +49,44 @@ STREAMS = {
     "g-pv": {"relevant": False, "desc": "translated parse_pivot_frame vs the function"},
     "g-nts": {"relevant": False, "desc": "translated null_terminated_str vs the function"},
     "g-ntb": {"relevant": False, "desc": "translated null_terminated_bytes vs the function"},
+    "pyu": {"relevant": False, "desc": "every operation of lean/CsVerif/Model/PyU.lean (run-time library of the untyped translator) vs CPython / "
+                                       "dissect.cstruct on random operands of all kinds, restricted to the operand kinds the operation models"},
+    "g-arg": {"relevant": False, "desc": "translated functions vs the functions on arguments that are not bytes (None, int, str, list, True), "
+                                         "which the hand-written model cannot express"},
 }
 G_STREAMS = {"tr", "rc", "ex", "it", "gg", "pv", "nts", "ntb"}
+G_ARGS = {"none": None, "int": 5, "str": "ab", "list": [1], "true": True}
+G_FUNCS = {"tr": "parse_transform_binary", "rc": "parse_recover_binary", "ex": "parse_execute_list",
+           "it": "parse_process_injection_transform_steps", "gg": "parse_gargle", "pv": "parse_pivot_frame",
+           "nts": "null_terminated_str", "ntb": "null_terminated_bytes"}
+
+
+PYU_ENUMS = [B.TransformStep, B.InjectExecutor]
+
+
+def pshow(v):
+    """generic rendering of a Python value (must match `vShow` of lean/CsVerif/Driver/C03.lean)"""
+    if v is None:
+        return "N"
+    if v is True or v is False:
+        return "T" if v else "F"
+    if type(v) in PYU_ENUMS:
+        return f"E{PYU_ENUMS.index(type(v))}:{int(v.value)}"
+    if isinstance(v, int) and type(v) is int:
+        return f"i{v}"
+    if isinstance(v, dict):
+        return "D[" + ";".join(pshow(x) for x in v.keys()) + "|" + ";".join(pshow(x) for x in v.values()) + "]"
+    if isinstance(v, io.BytesIO):
+        return "O" + v.getvalue().hex() + ":" + str(v.tell())
+    if isinstance(v, bytes):
+        return "b" + v.hex()
+    if isinstance(v, str):
+        return "s" + ".".join(str(ord(c)) for c in v)
+    if isinstance(v, list):
+        return "L[" + ";".join(pshow(x) for x in v) + "]"
+    if isinstance(v, tuple):
+        return "U[" + ";".join(pshow(x) for x in v) + "]"
+    raise RuntimeError(f"pshow: {v!r}")
 TRUSTED = [
     "tools/harness/c03.py generators, reference encoders and renderers; line protocol parsing in lean/CsVerif/Driver/C03.lean",
     "tools/gen/beacon.py (opcode tables by introspection of the imported package)",
@@ -57,7 +94,8 @@ TRUSTED = [
     "dict.fromkeys, itertools.zip_longest, ipaddress.IPv4Address, dissect.cstruct 4.7 enum/flag/struct construction and `.name`",
     "SHA-256 is a parameter of the model (the harness observes the pre-image with a stub hash and supplies hashlib's digest as a one-point table)",
     "tools/py2leanu.py + lean/CsVerif/Model/PyU.lean (untyped source-to-Lean translation of the eight decoders; Props/C03Gen.lean proves the "
-    "translated definitions equal to the hand-written model, the g-* streams run the translated definitions against the real functions)",
+    "translated definitions equal to the hand-written model, the g-* streams run the translated definitions against the real functions, "
+    "the pyu stream runs every PyU operation against CPython / dissect.cstruct on random operands)",
 ]
 ASSUMPTIONS = [
     "settings reach the pretty functions with the value type Cobalt Strike uses (bytes for TYPE_PTR settings, int for DNS_IDLE/BOF_ALLOCATOR/KILLDATE/PROTOCOL); "
@@ -379,12 +417,273 @@ def tails(rng, data):
     return b"", False  # truncate (malformed)
 
 
+def pparse(tok):
+    """inverse of pshow (operands of the `pyu` stream)"""
+    def one(i):
+        c = tok[i]
+        if c == "N":
+            return None, i + 1
+        if c in "TF":
+            return c == "T", i + 1
+        if c in "ibsOE":
+            j = i + 1
+            while j < len(tok) and tok[j] not in ";]|":
+                j += 1
+            body = tok[i + 1:j]
+            if c == "i":
+                return int(body), j
+            if c == "b":
+                return bytes.fromhex(body), j
+            if c == "s":
+                return "".join(chr(int(x)) for x in body.split(".") if x), j
+            if c == "O":
+                h, pos = body.split(":")
+                o = io.BytesIO(bytes.fromhex(h))
+                o.seek(int(pos))
+                return o, j
+            cid, val = body.split(":")
+            return PYU_ENUMS[int(cid)](int(val)), j
+        if c in "LUD":
+            i += 2
+            groups, cur = [], []
+            while True:
+                if tok[i] == "]":
+                    groups.append(cur)
+                    i += 1
+                    break
+                if tok[i] == "|":
+                    groups.append(cur)
+                    cur = []
+                    i += 1
+                    continue
+                if tok[i] == ";":
+                    i += 1
+                    continue
+                v, i = one(i)
+                cur.append(v)
+            if c == "L":
+                return list(groups[0]), i
+            if c == "U":
+                return tuple(groups[0]), i
+            return dict(zip(groups[0], groups[1])), i
+        raise RuntimeError("pparse: " + tok)
+    v, i = one(0)
+    if i != len(tok):
+        raise RuntimeError("pparse: trailing input in " + tok)
+    return v
+
+
+def _iadd(a, b):
+    a += b
+    return a
+
+
+def _append(a, b):
+    a.append(b)
+    return a
+
+
+def _read(p, n):
+    d = p.read(n)
+    return (d, p)
+
+
+def _unpack(k):
+    def f(x):
+        if k == 2:
+            a, b = x
+            return (a, b)
+        a, b, c = x
+        return (a, b, c)
+    return f
+
+
+PYU_OPS = {
+    "truthy": lambda a: bool(a), "isnone": lambda a: a is None, "neg": lambda a: -a, "len": lambda a: len(a),
+    "unpack2": _unpack(2), "unpack3": _unpack(3), "newbio": lambda a: io.BytesIO(a), "decutf8": lambda a: a.decode(),
+    "declatin1": lambda a: a.decode("latin-1", "ignore"), "fmt": lambda a: "{}".format(a), "fmtx": lambda a: "{:x}".format(a),
+    "name": lambda a: a.name, "value": lambda a: a.value, "enum0": lambda a: B.TransformStep(a), "enum1": lambda a: B.InjectExecutor(a),
+    "u32be": lambda a: B.u32be(a), "mkdict": lambda a: {k: v for k, v in a},
+    "eq": lambda a, b: a == b, "lt": lambda a, b: a < b, "le": lambda a, b: a <= b, "gt": lambda a, b: a > b, "ge": lambda a, b: a >= b,
+    "add": lambda a, b: a + b, "iadd": _iadd, "sub": lambda a, b: a - b, "mul": lambda a, b: a * b, "floordiv": lambda a, b: a // b,
+    "mod": lambda a, b: a % b, "band": lambda a, b: a & b, "bor": lambda a, b: a | b, "bxor": lambda a, b: a ^ b,
+    "shl": lambda a, b: a << b, "shr": lambda a, b: a >> b, "contains": lambda a, b: b in a, "getitem": lambda a, b: a[b],
+    "append": _append, "read": _read, "rstrip": lambda a, b: a.rstrip(b), "partition": lambda a, b: a.partition(b),
+    "slice": lambda a, b, c: a[b:c], "dictget": lambda a, b, c: a.get(b, c),
+}
+PYU_ARITY = {op: f.__code__.co_argcount for op, f in PYU_OPS.items()}
+
+
+def _kind(v):
+    if v is None:
+        return "none"
+    if isinstance(v, bool):
+        return "bool"
+    if type(v) in PYU_ENUMS:
+        return "enum"
+    return {int: "int", bytes: "bytes", str: "str", list: "list", tuple: "tuple", dict: "dict", io.BytesIO: "bio"}[type(v)]
+
+
+def _intlike(v):
+    return _kind(v) in ("bool", "int", "enum")
+
+
+def _contains_kind(v, kinds):
+    if _kind(v) in kinds:
+        return True
+    if isinstance(v, (list, tuple)):
+        return any(_contains_kind(x, kinds) for x in v)
+    if isinstance(v, dict):
+        return any(_contains_kind(x, kinds) for x in list(v.keys()) + list(v.values()))
+    return False
+
+
+def pyu_modelled(op, args):
+    """False for the operand kinds an operation of PyU.lean documents as not modelled (its doc comment says which)"""
+    ks = [_kind(a) for a in args]
+    if op in ("eq", "contains", "getitem", "dictget") and (sum(_contains_kind(a, ("dict",)) for a in args) >= 2 or sum(_contains_kind(a, ("bio",)) for a in args) >= 2):
+        return False        # dict == dict ignores the order; BytesIO == BytesIO is identity
+    if op in ("contains", "getitem", "dictget", "mkdict") and any(_contains_kind(a, ("bio",)) for a in args):
+        return False        # BytesIO as a key: hashed by identity
+    if op in ("lt", "le", "gt", "ge") and ks[0] == ks[1] and ks[0] in ("list", "tuple"):
+        return False
+    if op == "iadd" and ks[0] == "list":
+        return False
+    if op == "mod" and ks[0] in ("str", "bytes"):
+        return False
+    if op == "bor" and ks[0] == ks[1] == "dict":
+        return False
+    if op in ("enum0", "enum1") and (ks[0] in ("str", "bio") or ks[0] == "enum" and PYU_ENUMS.index(type(args[0])) != int(op[-1])):
+        return False
+    if op == "fmt" and ks[0] in ("bytes", "list", "tuple", "dict", "bio", "enum"):
+        return False
+    if op in ("unpack2", "unpack3") and ks[0] == "bio":
+        return False
+    if op == "u32be" and ks[0] in ("list", "tuple"):
+        return False
+    if op in ("mul", "shl", "shr") and any(_intlike(a) and abs(int(a)) > 64 for a in args):
+        return False        # keep the results small
+    return True
+
+
+def pyu_value(rng, depth=0):
+    """a random value of every kind; small alphabets so that equal / contained / prefix operands are frequent"""
+    r = rng.random()
+    if r < 0.08:
+        return None
+    if r < 0.16:
+        return rng.choice([True, False])
+    if r < 0.34:
+        return rng.choice([0, 1, 2, 3, 4, 7, -1, -2, 5, 16, 255, 256, -256, 65, 97, 1 << 32, rng.randrange(-70, 70)])
+    if r < 0.50:
+        n = rng.choice([0, 1, 1, 2, 3, 4, 5, 8])
+        return bytes(rng.choice([0, 0, 65, 66, 32, 9, 0xC3, 0xA9, 0xFF, 0x80, 1, 2, 7]) for _ in range(n))
+    if r < 0.64:
+        n = rng.choice([0, 1, 1, 2, 3, 5])
+        return "".join(rng.choice("ab_ x\t\n\x1c\x85\xa0é€_0") for _ in range(n))
+    if r < 0.70:
+        cls = rng.choice(PYU_ENUMS)
+        return cls(rng.choice([0, 1, 2, 6, 7, 8, 16, 17, 255, -1, 300]))
+    if r < 0.76:
+        d = bytes(rng.choice([0, 1, 65, 255]) for _ in range(rng.choice([0, 1, 3, 6])))
+        o = io.BytesIO(d)
+        o.seek(rng.randrange(0, len(d) + 2))
+        return o
+    if depth >= 2:
+        return rng.choice([0, 1, b"a", "a", None])
+    if r < 0.86:
+        return [pyu_value(rng, depth + 1) for _ in range(rng.choice([0, 1, 2, 3]))]
+    if r < 0.95:
+        return tuple(pyu_value(rng, depth + 1) for _ in range(rng.choice([0, 1, 2, 3])))
+    d = {}
+    for _ in range(rng.choice([0, 1, 2, 3])):
+        k = pyu_value(rng, 2)
+        try:
+            d[k] = pyu_value(rng, depth + 1)
+        except TypeError:
+            pass
+    return d
+
+
+def pyu_case(rng):
+    op = rng.choice(sorted(PYU_OPS))
+    n = PYU_ARITY[op]
+    args = [pyu_value(rng) for _ in range(n)]
+    r = rng.random()
+    # bias towards the kinds the operation is about
+    if op in ("rstrip", "partition") and r < 0.8:
+        args[0] = rng.choice([pyu_value(rng) for _ in range(6)] + [b"ab\x00\x00", b"a\x00b\x00", "x_ab__", "a_b_", b" ab \n", "ab \x85\xa0"])
+        if rng.random() < 0.7:
+            args[1] = rng.choice([b"\x00", b"", b"ab", "_", "", "ab", None, b"b\x00"])
+    elif op == "read" and r < 0.85:
+        d = bytes(rng.randrange(0, 256) for _ in range(rng.choice([0, 1, 4, 9])))
+        o = io.BytesIO(d)
+        o.seek(rng.randrange(0, len(d) + 2))
+        args[0] = o
+        args[1] = rng.choice([None, -1, -5, 0, 1, 2, 4, 100, True, B.TransformStep(2), pyu_value(rng)])
+    elif op in ("dictget", "getitem", "contains") and r < 0.5:
+        d = {}
+        for _ in range(3):
+            d[rng.choice([0, 1, 2, True, "a", b"a", (0,), None, B.TransformStep(1), B.InjectExecutor(1)])] = pyu_value(rng, 1)
+        args[0] = d
+        args[1] = rng.choice([0, 1, True, False, 2, "a", b"a", (0,), (0, [1]), [0], None, B.TransformStep(1), B.InjectExecutor(1), 3])
+    elif op in ("getitem", "slice") and r < 0.9:
+        args[0] = rng.choice([b"abc", "abc", [1, 2, 3], (1, 2, 3), b"", "", [], pyu_value(rng)])
+        for i in range(1, n):
+            args[i] = rng.choice([None, 0, 1, 2, 3, 4, -1, -2, -3, -4, True, B.TransformStep(1), "a", pyu_value(rng)])
+    elif op == "contains" and r < 0.9:
+        args[0] = rng.choice([b"abcab", "abcab", [1, "a", b"a", None, (1, 2)], (True, 2, B.TransformStep(3)), pyu_value(rng)])
+        args[1] = rng.choice([b"", b"ab", b"ca", b"ba", 97, 300, -1, "", "ab", "ca", "ba", 1, "a", (1, 2), [1, 2], 3, None, B.InjectExecutor(3), pyu_value(rng)])
+    elif op in ("unpack2", "unpack3") and r < 0.8:
+        k = rng.choice([1, 2, 3, 4])
+        args[0] = rng.choice([tuple(range(k)), list(range(k)), bytes(range(k)), "abcd"[:k], {i: i for i in range(k)}])
+    elif op in ("decutf8", "declatin1") and r < 0.85:
+        args[0] = rng.choice([b"", b"abc", "é€".encode(), b"\xff", b"\xc3", b"\xed\xa0\x80", b"\xc0\x80", b"\xf4\x90\x80\x80", "😀".encode(),
+                              b"\xe0\x9f\x80", b"\xf0\x8f\x80\x80", b"a\xe2\x82", bytes(rng.randrange(0, 256) for _ in range(rng.choice([1, 2, 3, 4])))])
+    elif op in ("enum0", "enum1") and r < 0.8:
+        args[0] = rng.choice([None, 0, 1, 6, 7, 300, -1, True, b"", b"\x06", b"\x00\x00\x00\x07", b"\x01\x02\x03\x04\x05", b"\x00\x00\x01",
+                              PYU_ENUMS[int(op[-1])](5), [1], (1,), {}])
+    elif op == "u32be" and r < 0.8:
+        args[0] = bytes(rng.randrange(0, 256) for _ in range(rng.choice([0, 1, 3, 4, 5, 8])))
+    elif op in ("name", "value") and r < 0.8:
+        args[0] = rng.choice(PYU_ENUMS)(rng.choice([0, 1, 2, 6, 7, 8, 9, 14, 16, 17, 255, -1, 1 << 33]))
+    elif op == "mkdict":
+        items = []
+        for _ in range(rng.choice([0, 1, 2, 3, 4])):
+            items.append((rng.choice([0, 1, True, False, "a", b"a", (0, 1), None, 2, [1], {}, (0, [1]), B.TransformStep(1), B.InjectExecutor(1)]), pyu_value(rng, 1)))
+        args[0] = items
+    elif op in ("fmt", "fmtx") and r < 0.8:
+        args[0] = rng.choice([0, 1, -1, 255, 256, -255, 65535, 1 << 40, True, False, None, "ab", "", B.TransformStep(10), B.InjectExecutor(255), b"a", (1,)])
+    elif n == 2 and r < 0.5:
+        # the same kind on both sides (ordering / concatenation / equality)
+        a = pyu_value(rng)
+        b = rng.choice([pyu_value(rng) for _ in range(8)] + [a])
+        cand = [x for x in [pyu_value(rng) for _ in range(12)] if _kind(x) == _kind(a)]
+        args = [a, rng.choice(cand) if cand and rng.random() < 0.8 else b]
+    if not pyu_modelled(op, args):
+        return None
+    try:
+        return "pyu " + op + " " + " ".join(pshow(a) for a in args)
+    except RuntimeError:
+        return None
+
+
 def gen(tier, rng, shard, nshards):
     """every case of a stream whose function is translated from source is also run through the translated definition"""
     for stream, line in gen0(tier, rng, shard, nshards):
         yield stream, line
         if stream in G_STREAMS:
             yield "g-" + stream, "g" + line
+    for _ in range((120000 if tier == "thorough" else 12000) // nshards):
+        line = pyu_case(rng)
+        if line is not None:
+            yield "pyu", line
+    k = 0
+    for fn in sorted(G_STREAMS):
+        for kind in G_ARGS:
+            k += 1
+            if k % nshards == shard:
+                yield "g-arg", f"garg {fn} {kind}"
 
 
 def gen0(tier, rng, shard, nshards):
@@ -801,6 +1100,13 @@ def _prop(fn):
 
 def impl(stream, line):
     w = line.split()
+    if stream == "g-arg":
+        return "ok " + pshow(getattr(B, G_FUNCS[w[1]])(G_ARGS[w[2]]))
+    if stream == "pyu":
+        r = PYU_OPS[w[1]](*[pparse(t) for t in w[2:]])
+        if w[1] in ("truthy", "isnone", "eq"):
+            return pshow(r)
+        return "ok " + pshow(r)
     if stream.startswith("g-"):
         # the same real functions; exceptions are reported by the runner as `exc <name>`
         base = stream[2:]
@@ -873,6 +1179,8 @@ def impl(stream, line):
 def nontrivial(stream, line, out):
     if out.startswith("exc ") or "unmodelled" in out:
         return False
+    if stream == "pyu":
+        return True
     if stream.startswith("g-"):
         return out[3:] not in ("[]", "x", "s")
     if stream == "der":
@@ -993,7 +1301,7 @@ def ref_decode_recover(data):
 
 
 def oracle(stream, line, out):
-    if stream.startswith("g-"):
+    if stream.startswith("g-") or stream == "pyu":
         return None
     if (stream, line) not in EXPECT and stream in ("tr", "rc"):
         w = line.split()
